@@ -466,10 +466,22 @@ func pfGate(o *Out, r *Rng, thorough bool) {
 		cases = append(cases, gc{d, false, 0})
 		d++
 	}
+	// every peer advertised something else before: the vector in force is the LAST one advertised, also when it
+	// lacks a destination the earlier one had or is empty (peer 4)
+	stale := map[bpv7.EndpointID]float64{}
+	for _, c := range cases {
+		stale[pfEID(c.dest)] = 1
+	}
+	for i := 1; i <= 4; i++ {
+		n.Receive(pfMetaBundle(i, 0, stale), pfNode(i))
+	}
 	// vectors arrive as metadata bundles addressed to this node (real NotifyNewBundle path)
 	n.Receive(pfMetaBundle(1, 0, v1), pfNode(1))
 	n.Receive(pfMetaBundle(2, 0, v2), pfNode(2))
 	n.Receive(pfMetaBundle(3, 0, v3), pfNode(3))
+	n.Receive(pfMetaBundle(4, 0, map[bpv7.EndpointID]float64{}), pfNode(4))
+	// what each peer advertises now - the gate is judged against this, not against the node's own copy of it
+	adv := map[bpv7.EndpointID]map[bpv7.EndpointID]float64{pfEID(1): v1, pfEID(2): v2, pfEID(3): v3, pfEID(4): {}}
 	// a vector addressed to somebody else must not be imported
 	n.Receive(pfMetaBundle(4, 9, map[bpv7.EndpointID]float64{pfEID(100): 1, pfEID(5): 1}), pfNode(4))
 	for _, c := range cases {
@@ -483,7 +495,7 @@ func pfGate(o *Out, r *Rng, thorough bool) {
 	}
 	cases = append(cases, gc{5, true, 1}, gc{4, false, 0}, gc{1, false, 0})
 	own := p.VerifPreds()
-	peers := p.VerifPeerPreds()
+	peers := adv
 	var css []S
 	for i := 1; i <= 5; i++ {
 		css = append(css, I(i))
